@@ -314,3 +314,271 @@ Proof.
   intros Ha Hst Hs H. rewrite crun_cons, Hs in H. destruct (ends_nl l) eqn:E; cbn [negb] in H; [exact H|].
   rewrite (abl_eof _ _ Ha E). inversion H; subst. destruct st1; try reflexivity. contradiction.
 Qed.
+
+(* ---------------------------------------------------------------- encoding: the first "encoding" header wins *)
+Fixpoint first_enc (ls : list bytes) : option bytes :=
+  match ls with
+  | [] => None
+  | l :: r => if first_is LF l then None else if key_is k_encoding l then Some (value_of l) else first_enc r
+  end.
+
+Definition enc_step (c : commit) (se : bool) (l : bytes) (c' : commit) (se' : bool) : Prop :=
+  if key_is k_encoding l then se' = true /\ c_enc c' = (if se then c_enc c else value_of l)
+  else se' = se /\ c_enc c' = c_enc c.
+
+Lemma on_headers_enc c se l c' se' st' : is_blank l = false -> on_headers c se l = (c', se', st') ->
+  st' <> SMessage /\ enc_step c se l c' se'.
+Proof.
+  intros Hb. unfold on_headers, enc_step, key_is, value_of. rewrite Hb. destruct (split_header l) as [key data]. cbn [fst snd].
+  destruct (beqb key k_encoding) eqn:Ee.
+  - apply beqb_eq in Ee. subst key.
+    replace (beqb k_encoding k_tree || beqb k_encoding k_parent || beqb k_encoding k_author || beqb k_encoding k_committer)
+      with false by reflexivity.
+    intros H. inversion H; subst. split; [discriminate|]. destruct se; split; reflexivity.
+  - destruct (beqb key k_tree || beqb key k_parent || beqb key k_author || beqb key k_committer);
+      [intros H; inversion H; subst; split; [discriminate|split; reflexivity]|].
+    destruct (beqb key k_gpgsig); [intros H; inversion H; subst; split; [discriminate|split; reflexivity]|].
+    destruct (beqb key k_gpgsig256); [intros H; inversion H; subst; split; [discriminate|split; reflexivity]|].
+    destruct (parse_extra_header l) as [[k v] m]. destruct m; intros H; inversion H; subst; (split; [discriminate|split; reflexivity]).
+Qed.
+
+Lemma on_committer_enc c se l c' se' st' : is_blank l = false -> on_committer c se l = (c', se', st') ->
+  st' <> SMessage /\ enc_step c se l c' se'.
+Proof.
+  intros Hb. unfold on_committer. rewrite Hb. destruct (split_header l) as [key data] eqn:Es.
+  destruct (beqb key k_committer) eqn:Ek; [|apply (on_headers_enc _ _ _ _ _ _ Hb)].
+  apply beqb_eq in Ek. subst key. intros H. inversion H; subst. split; [discriminate|].
+  unfold enc_step, key_is. rewrite Es. cbn [fst]. replace (beqb k_committer k_encoding) with false by reflexivity. now split.
+Qed.
+
+Lemma on_author_enc c se l c' se' st' : is_blank l = false -> on_author c se l = (c', se', st') ->
+  st' <> SMessage /\ enc_step c se l c' se'.
+Proof.
+  intros Hb. unfold on_author. rewrite Hb. destruct (split_header l) as [key data] eqn:Es.
+  destruct (beqb key k_author) eqn:Ek; [|apply (on_committer_enc _ _ _ _ _ _ Hb)].
+  apply beqb_eq in Ek. subst key. intros H. inversion H; subst. split; [discriminate|].
+  unfold enc_step, key_is. rewrite Es. cbn [fst]. replace (beqb k_author k_encoding) with false by reflexivity. now split.
+Qed.
+
+Lemma sp_not_enc l : first_is SPC l = true -> key_is k_encoding l = false.
+Proof. intros H. unfold key_is. now rewrite (key_of_sp _ H). Qed.
+
+Lemma cstep_enc st c se eof l c' se' st' : st <> SMessage -> is_blank l = false ->
+  cstep st c se eof l = Ok (c', se', st') -> st' <> SMessage /\ enc_step c se l c' se'.
+Proof.
+  intros Hst Hb. destruct st; cbn [cstep]; try contradiction.
+  - rewrite Hb. destruct (split_header l) as [key data] eqn:Es. destruct (beqb key k_parent) eqn:Ek.
+    + apply beqb_eq in Ek. subst key. destruct (parse_oid data); [|discriminate]. intros H. inversion H; subst.
+      split; [discriminate|]. unfold enc_step, key_is. rewrite Es. cbn [fst].
+      replace (beqb k_parent k_encoding) with false by reflexivity. now split.
+    + intros H. inversion H as [H']. exact (on_author_enc _ _ _ _ _ _ Hb H').
+  - intros H. inversion H as [H']. exact (on_author_enc _ _ _ _ _ _ Hb H').
+  - intros H. inversion H as [H']. exact (on_committer_enc _ _ _ _ _ _ Hb H').
+  - intros H. inversion H as [H']. exact (on_headers_enc _ _ _ _ _ _ Hb H').
+  - destruct (first_is SPC l) eqn:Esp; intros H; inversion H as [H'].
+    + subst. split; [discriminate|]. unfold enc_step. rewrite (sp_not_enc _ Esp). now split.
+    + exact (on_headers_enc _ _ _ _ _ _ Hb H').
+  - destruct (first_is SPC l) eqn:Esp; intros H; inversion H as [H'].
+    + subst. split; [discriminate|]. unfold enc_step. rewrite (sp_not_enc _ Esp). now split.
+    + exact (on_headers_enc _ _ _ _ _ _ Hb H').
+  - destruct (first_is SPC l) eqn:Esp.
+    + destruct eof; intros H; inversion H; subst; (split; [discriminate|]); unfold enc_step; rewrite (sp_not_enc _ Esp); now split.
+    + intros H. inversion H as [H']. exact (on_headers_enc (finalise_extra c k v) _ _ _ _ _ Hb H').
+Qed.
+
+Lemma cstep_blank_enc st c se eof l c' se' st' : st <> SMessage -> is_blank l = true ->
+  cstep st c se eof l = Ok (c', se', st') -> st' = SMessage /\ c_enc c' = c_enc c.
+Proof.
+  intros Hst Hb.
+  assert (Hsp : first_is SPC l = false).
+  { destruct l as [|x [|y l]]; try discriminate. cbn in Hb. apply N.eqb_eq in Hb. now subst. }
+  destruct st; cbn [cstep]; try rewrite Hsp; try rewrite Hb;
+    unfold on_author, on_committer, on_headers; try rewrite Hb;
+    try (intros H; inversion H; subst; split; reflexivity).
+Qed.
+
+Lemma crun_message_enc ls : forall c0 se c, crun SMessage c0 se ls = Ok c -> c_enc c = c_enc c0.
+Proof.
+  induction ls as [|l r IH]; intros c0 se c; cbn [crun cfinish].
+  - intros H; now inversion H.
+  - cbn [cstep]. destruct (negb (ends_nl l)).
+    + intros H; now inversion H.
+    + intros H. now rewrite (IH _ _ _ H).
+Qed.
+
+Lemma crun_enc : forall ls st c0 se c,
+  st <> SMessage -> Forall line_ok ls -> all_but_last_nl ls = true -> crun st c0 se ls = Ok c ->
+  c_enc c = if se then c_enc c0 else match first_enc ls with Some v => v | None => c_enc c0 end.
+Proof.
+  induction ls as [|l r IH]; intros st c0 se c Hst Hok Ha H.
+  - cbn [crun] in H. inversion H. cbn [first_enc]. destruct st, se; reflexivity.
+  - inversion Hok as [|x0 y0 Hl Hr]. subst x0 y0. destruct (abl_tail _ _ Ha) as [Har _].
+    rewrite crun_cons in H. destruct (cstep st c0 se (negb (ends_nl l)) l) as [[[c1 se1] st1]|e] eqn:Es; [|discriminate].
+    cbn [first_enc]. rewrite (first_is_lf_blank _ Hl). destruct (is_blank l) eqn:Hb.
+    + destruct (cstep_blank_enc _ _ _ _ _ _ _ _ Hst Hb Es) as [-> E1].
+      assert (E : c_enc c = c_enc c1).
+      { destruct (negb (ends_nl l)); [now inversion H|exact (crun_message_enc _ _ _ _ H)]. }
+      rewrite E, E1. now destruct se.
+    + destruct (cstep_enc _ _ _ _ _ _ _ _ Hst Hb Es) as [Hst1 P]. unfold enc_step in P.
+      destruct (ends_nl l) eqn:Een; cbn [negb] in H.
+      * rewrite (IH _ _ _ _ Hst1 Hr Har H). destruct (key_is k_encoding l).
+        -- destruct P as [-> ->]. reflexivity.
+        -- destruct P as [-> ->]. reflexivity.
+      * rewrite (abl_eof _ _ Ha Een). cbn [first_enc]. inversion H; subst c1.
+        destruct (key_is k_encoding l); destruct P as [_ ->]; now destruct se.
+Qed.
+
+(* git's find_commit_header sees the same line, unless a bare "encoding" line exists *)
+Lemma find_enc ls : Forall line_ok ls ->
+  existsb (fun l => beqb (trim_right LF l) k_encoding) (header_of ls) = false ->
+  git_find_header k_encoding ls = first_enc ls.
+Proof.
+  induction ls as [|l r IH]; intros Hok Hg; [reflexivity|]. inversion Hok as [|x0 y0 Hl Hr]. subst x0 y0.
+  cbn [git_find_header first_enc header_of] in *. destruct (first_is LF l); [reflexivity|].
+  cbn [existsb] in Hg. apply orb_false_iff in Hg as [G1 G2].
+  destruct (starts_with (k_encoding ++ [SPC]) l) eqn:E9.
+  - destruct (pre_key k_encoding l Hl eq_refl eq_refl E9) as [K [V _]]. now rewrite K, V.
+  - destruct (key_is k_encoding l) eqn:K; [|exact (IH Hr G2)].
+    destruct (key_split _ _ Hl K) as [[_ T]|T]; [|congruence].
+    rewrite T in G1. discriminate G1.
+Qed.
+
+(* ---------------------------------------------------------------- parents *)
+Lemma git_parents_stop fuel b : starts_with (str "parent "%string) b = false -> git_parents fuel b = Some [].
+Proof. intros H. destruct fuel; [reflexivity|]. cbn [git_parents]. now rewrite H, andb_false_r. Qed.
+
+Lemma git_parents_step f v R : List.length v = 40%nat -> all_hex v = true -> R <> [] ->
+  git_parents (S f) (str "parent "%string ++ v ++ LF :: R) =
+  match git_parents f R with Some ps => Some (lower_hex v :: ps) | None => None end.
+Proof.
+  intros Hv Hh HR. set (P := str "parent "%string). set (b := P ++ v ++ LF :: R).
+  assert (HP : List.length P = 7%nat) by reflexivity.
+  assert (Hlen : List.length b = (48 + List.length R)%nat).
+  { unfold b. rewrite !app_length. cbn [List.length]. rewrite HP, Hv. lia. }
+  assert (HRl : (0 < List.length R)%nat) by (destruct R; [contradiction|cbn [List.length]; lia]).
+  cbn [git_parents]. fold P.
+  replace (Nat.ltb 47 (List.length b)) with true by (symmetry; apply Nat.ltb_lt; lia).
+  replace (starts_with P b) with true by (symmetry; apply starts_with_app).
+  replace (Nat.leb (List.length b) 48) with false by (symmetry; apply Nat.leb_gt; lia).
+  cbn [andb].
+  replace (skipn 7 b) with (v ++ LF :: R) by (symmetry; apply skipn_len; exact HP).
+  rewrite (firstn_len 40 v (LF :: R) Hv), Hh.
+  replace (nth 47 b 0) with LF.
+  2:{ unfold b. rewrite app_assoc. symmetry. apply nth_len. rewrite app_length, HP, Hv. reflexivity. }
+  replace (LF =? LF) with true by reflexivity. cbn [andb].
+  replace (skipn 48 b) with R; [reflexivity|].
+  unfold b. replace (P ++ v ++ LF :: R) with ((P ++ v ++ [LF]) ++ R) by (now rewrite <- !app_assoc).
+  symmetry. apply skipn_len. rewrite !app_length, HP, Hv. reflexivity.
+Qed.
+
+Lemma concat_nonnil (ls : list bytes) : Forall line_ok ls -> ls <> [] -> List.concat ls <> [].
+Proof.
+  intros Hok Hne. destruct ls as [|l r]; [contradiction|]. inversion Hok as [|x0 y0 [Hl _] _]. subst.
+  cbn [List.concat]. destruct l; [contradiction|discriminate].
+Qed.
+
+(* a line go-git reads as a parent, of git's shape *)
+Lemma parent_line_form l hh : line_ok l -> key_is k_parent l = true -> parse_oid (value_of l) = Some hh ->
+  List.length l = 48%nat -> ends_nl l = true ->
+  exists v, l = str "parent "%string ++ v ++ [LF] /\ List.length v = 40%nat /\ hex_decode v = Some hh.
+Proof.
+  intros Hl Hk Hp Hlen Hen.
+  assert (Hv : value_of l <> []) by (intros E; rewrite E in Hp; discriminate Hp).
+  destruct (key_val k_parent l Hl eq_refl eq_refl Hk Hv) as [Hsw _].
+  destruct (hdr_line k_parent l Hl eq_refl eq_refl Hsw) as [v [Hc [Hnv Hsp]]].
+  destruct (line_lf_form _ Hl Hen) as [p [Hp' ->]].
+  unfold chomp in Hc. rewrite ends_nl_app_lf, removelast_last in Hc. subst p.
+  unfold value_of in Hp. rewrite Hsp in Hp. cbn [snd] in Hp.
+  change (k_parent ++ [SPC]) with (str "parent "%string) in *.
+  assert (Hvl : List.length v = 40%nat).
+  { rewrite !app_length in Hlen. change (List.length (str "parent "%string)) with 7%nat in Hlen. cbn [List.length] in Hlen. lia. }
+  exists v. split; [now rewrite <- app_assoc|]. split; [exact Hvl|].
+  unfold parse_oid in Hp. rewrite Hvl in Hp. exact Hp.
+Qed.
+
+Lemma crun_parents_git : forall ls c0 se c fuel ps,
+  Forall line_ok ls -> all_but_last_nl ls = true ->
+  crun SParents c0 se ls = Ok c ->
+  pblock_ok (header_of ls) (List.length (List.concat ls)) = true ->
+  (List.length (List.concat ls) <= fuel)%nat ->
+  git_parents fuel (List.concat ls) = Some ps ->
+  map hex_encode (c_parents c) = map hex_encode (c_parents c0) ++ ps.
+Proof.
+  induction ls as [|l r IH]; intros c0 se c fuel ps Hok Ha Hrun Hpb Hfuel Hg.
+  - cbn [crun cfinish] in Hrun. inversion Hrun; subst c. cbn [List.concat] in Hg.
+    rewrite git_parents_stop in Hg by reflexivity. inversion Hg. now rewrite app_nil_r.
+  - inversion Hok as [|x0 y0 Hl Hr]. subst x0 y0. destruct (abl_tail _ _ Ha) as [Har Hen].
+    destruct (key_is k_parent l) eqn:Hk.
+    + (* a parent line *)
+      assert (Hb : is_blank l = false) by (apply (key_nonblank _ _ Hk); discriminate).
+      cbn [header_of] in Hpb. rewrite (first_is_lf_blank _ Hl), Hb in Hpb. cbn [pblock_ok] in Hpb. rewrite Hk in Hpb.
+      apply andb_true_iff in Hpb as [Hpb Hrest]. apply andb_true_iff in Hpb as [Hpb Hrem].
+      apply andb_true_iff in Hpb as [Hlen Hsw]. apply Nat.eqb_eq in Hlen. apply Nat.ltb_lt in Hrem.
+      cbn [List.concat] in Hrem, Hrest, Hfuel, Hg. rewrite app_length in Hrem, Hrest, Hfuel.
+      assert (HR : List.concat r <> []) by (intros E; rewrite E in Hrem; cbn [List.length] in Hrem; lia).
+      assert (Hrne : r <> []) by (intros E; apply HR; now rewrite E).
+      specialize (Hen Hrne).
+      rewrite crun_cons, Hen in Hrun. cbn [negb] in Hrun.
+      destruct (cstep SParents c0 se false l) as [[[c1 se1] st1]|e] eqn:Es; [|discriminate].
+      destruct (parent_key_step _ _ _ _ _ _ _ Hk Es) as [hh [Hp [-> [-> ->]]]].
+      destruct (parent_line_form _ _ Hl Hk Hp Hlen Hen) as [v [El [Hvl Hhd]]].
+      destruct (hex_decode_lower _ _ Hhd) as [Hhe Hah].
+      destruct fuel as [|f]; [lia|].
+      rewrite El in Hg. rewrite <- !app_assoc in Hg. cbn [app] in Hg.
+      rewrite (git_parents_step f v _ Hvl Hah HR) in Hg.
+      destruct (git_parents f (List.concat r)) as [ps'|] eqn:Eg; [|discriminate]. inversion Hg; subst ps.
+      replace (List.length l + List.length (List.concat r) - List.length l)%nat with (List.length (List.concat r)) in Hrest by lia.
+      assert (Hf : (List.length (List.concat r) <= f)%nat) by lia.
+      rewrite (IH _ _ _ _ _ Hr Har Hrun Hrest Hf Eg). cbn [set_parents c_parents].
+      rewrite map_app. cbn [map]. rewrite Hhe, <- app_assoc. reflexivity.
+    + (* the block is over for go-git: it is over for git *)
+      rewrite crun_cons, (parents_step_other _ _ _ _ Hk), <- crun_cons in Hrun.
+      destruct (crun_keep _ _ _ _ _ Hrun) as (_ & Kp & _). rewrite Kp by (cbn; lia).
+      rewrite git_parents_stop in Hg.
+      * inversion Hg. now rewrite app_nil_r.
+      * destruct (starts_with (str "parent "%string) (List.concat (l :: r))) eqn:E; [|reflexivity].
+        pose proof (concat_prefix (str "parent "%string) _ _ Hl Ha eq_refl E) as E'.
+        destruct (pre_key k_parent l Hl eq_refl eq_refl E') as [K _]. congruence.
+Qed.
+
+Definition stray (l : bytes) : bool := starts_with (str "author "%string) l || starts_with (str "committer "%string) l.
+
+Lemma scan_none ls : forall a c, existsb stray (header_of ls) = false -> fst (git_scan_header ls a c) = (a, c).
+Proof.
+  induction ls as [|l r IH]; intros a c H; [reflexivity|]. cbn [git_scan_header header_of] in *.
+  destruct (first_is LF l); [reflexivity|]. cbn [existsb] in H. apply orb_false_iff in H as [H1 H2].
+  unfold stray in H1. apply orb_false_iff in H1 as [Ha Hc]. rewrite Ha, Hc. now apply IH.
+Qed.
+
+(* the lines go-git consumes as parents are the leading "parent " lines *)
+Lemma parents_block : forall ls c0 se c, Forall line_ok ls -> all_but_last_nl ls = true -> crun SParents c0 se ls = Ok c ->
+  exists rs c1, Forall line_ok rs /\ all_but_last_nl rs = true /\ crun SAuthor c1 se rs = Ok c /\
+    c_author c1 = c_author c0 /\ c_committer c1 = c_committer c0 /\
+    drop_parents (header_of ls) = header_of rs /\
+    (forall a cm, git_scan_header ls a cm = git_scan_header rs a cm).
+Proof.
+  induction ls as [|l r IH]; intros c0 se c Hok Ha Hrun.
+  - exists [], c0. repeat split; try assumption.
+  - inversion Hok as [|x0 y0 Hl Hr]. subst x0 y0. destruct (abl_tail _ _ Ha) as [Har Hen].
+    destruct (key_is k_parent l) eqn:Hk.
+    + assert (Hb : is_blank l = false) by (apply (key_nonblank _ _ Hk); discriminate).
+      destruct (cstep SParents c0 se (negb (ends_nl l)) l) as [[[c1 se1] st1]|e] eqn:Es; [|rewrite crun_cons, Es in Hrun; discriminate].
+      destruct (parent_key_step _ _ _ _ _ _ _ Hk Es) as [hh [Hp [E1 [E2 E3]]]]. subst se1 st1.
+      pose proof (crun_after SParents c0 se l r c1 se SParents c Ha I Es Hrun) as Hrun'.
+      destruct (IH _ _ _ Hr Har Hrun') as [rs [c2 (R1 & R2 & R3 & R4 & R5 & R6 & R7)]].
+      assert (Hv : value_of l <> []) by (intros E; rewrite E in Hp; discriminate Hp).
+      destruct (key_val k_parent l Hl eq_refl eq_refl Hk Hv) as [Hsw _].
+      change (k_parent ++ [SPC]) with (str "parent "%string) in Hsw.
+      exists rs, c2. repeat split; try assumption.
+      * rewrite R4, E1. reflexivity.
+      * rewrite R5, E1. reflexivity.
+      * cbn [header_of]. rewrite (first_is_lf_blank _ Hl), Hb. cbn [drop_parents]. now rewrite Hsw.
+      * intros a cm. cbn [git_scan_header]. rewrite (first_is_lf_blank _ Hl), Hb.
+        rewrite (key_excl k_parent k_author l Hl eq_refl eq_refl Hk ltac:(discriminate) : starts_with (str "author "%string) l = false).
+        rewrite (key_excl k_parent k_committer l Hl eq_refl eq_refl Hk ltac:(discriminate) : starts_with (str "committer "%string) l = false).
+        apply R7.
+    + exists (l :: r), c0. repeat split; try assumption.
+      * now rewrite crun_cons, (parents_step_other _ _ _ _ Hk), <- crun_cons in Hrun.
+      * cbn [header_of]. destruct (first_is LF l); [reflexivity|]. cbn [drop_parents].
+        now rewrite (nokey_nopre k_parent l Hl eq_refl eq_refl Hk : starts_with (str "parent "%string) l = false).
+Qed.
